@@ -707,6 +707,39 @@ def r06_16_replaced_node_filed(ctx, rid='R06.16'):
     r.done()
 
 
+def r06_17_hook_sees_shared_children(ctx, rid='R06.17'):
+    """PyYAML hands out *one* node object for every reference to one Python object (BaseRepresenter.represent_data answers from
+    represented_objects).  The mapping node that Representer.__call__ wraps for _yatiml_sweeten therefore holds, as its values, node
+    objects that other references to the same attribute objects hold too.  A hook that edits below its own node (the documented
+    index_attribute_to_map / seq_attribute_to_map on an attribute) edits those shared nodes: the other reference loses the data."""
+    P = ctx.P
+    r = ctx.rule(rid, 'the node a _yatiml_sweeten hook is free to edit shares no child node with another reference to the same object '
+                      '(children are copied before the hook runs, or are not the filed nodes)', floor=1)
+    rd = P.func('yaml.representer:BaseRepresenter.represent_data')
+    src = ast.unparse(rd.node)
+    if 'self.represented_objects[self.alias_key]' not in src:
+        raise AnalysisError('BaseRepresenter.represent_data no longer answers a repeated object from represented_objects (model changed)')
+    f = fn(P, 'yatiml.representers:Representer.__call__')
+    closure = [f]
+    if P.has_func('yatiml.representers:Representer.__sweeten'):
+        closure.append(fn(P, 'yatiml.representers:Representer.__sweeten'))
+    hooks = [c for g in closure for c in g.calls('_yatiml_sweeten') if g.live(c)]
+    if not hooks:
+        raise AnalysisError('anchor missing: the _yatiml_sweeten call of Representer')
+    built = [c for c in f.walk() if isinstance(c, ast.Call) and call_name(c) == 'represent_mapping' and f.live(c)]
+    if not built:
+        raise AnalysisError('anchor missing: the represent_mapping call of Representer.__call__')
+    copies = [c for g in closure for c in g.walk() if isinstance(c, ast.Call) and call_name(c) in ('deepcopy', 'copy_node', '_copy_node')
+              and g.live(c)]
+    r.check(bool(copies), 'Representer.__call__: the children of the node handed to the hook are copies', f.key('hook-sees-shared-children'),
+            f.loc(built[0]), 'Representer.__call__ wraps the node that represent_mapping built and hands it to _yatiml_sweeten; its value nodes '
+            'are the very objects PyYAML keeps in represented_objects for the attribute objects. A hook that edits an attribute in place '
+            '(node.index_attribute_to_map(..) removing the key attribute) edits every other reference to that object too: '
+            'dumps(Company(boss=m, employees={"Mary": m})) writes `boss: &id001 {role: Director}` - read by a plain YAML parser boss has lost its '
+            'name')
+    r.done()
+
+
 def r12_6_options_forwarded(ctx, rid='R12.6'):
     """the Dumper does not look at the sink and hands PyYAML's emitter options on unchanged"""
     P = ctx.P
